@@ -452,6 +452,57 @@ def r1c_fresh_holders(ctx, prog):
                             '(e.g. CKA_UNWRAP_TEMPLATE = its own entries plus those of CKA_WRAP_TEMPLATE after a reload)' % (v, loops[-1]['l'], nm), file=g['file'], line=c['l'])
 
 
+def r1d_map_accounting(ctx, prog, rule_id='C05.R1d'):
+    """The nested attribute map carries its total length; the reader subtracts each entry's size from it.  The last entry fits exactly, so the guard before each
+    subtraction must be the strict `size > remaining` (reject only what does not fit) over the very expression that is subtracted."""
+    r = ctx.rule(rule_id, 'the attribute-map reader accepts an entry that exactly fills the remaining length (strict guard over the subtracted size)', floor=5, engine='E8')
+    f = prog.fn('File::readAttributeMap')
+    ctx.analysed(f)
+
+    def blocks(node):
+        for n in walk(node):
+            if n.get('k') == 'Block':
+                yield n
+    n_sub = 0
+    for b in blocks(f['body']):
+        body = b['body']
+        for i, st in enumerate(body):
+            e = st.get('e') if st.get('k') == 'Expr' else None
+            if not (e is not None and e.get('k') == 'Assign' and e.get('op') == '-=' and e['a'].get('k') == 'Var'):
+                continue
+            n_sub += 1
+            rem, sub = e['a']['name'], canon(e['b'])
+            site = '%s -= %s@%d' % (rem, sub, n_sub)
+            guard = None
+            for prev in reversed(body[:i]):
+                if prev.get('k') == 'If' and any(x.get('k') == 'Return' for x in walk(prev['t'])):
+                    # the relational test may be one disjunct of the rejecting condition (`!read(...) || size > len`)
+                    def disjuncts(c):
+                        if c.get('k') == 'Bin' and c.get('op') == '||':
+                            return disjuncts(c['a']) + disjuncts(c['b'])
+                        if c.get('k') == 'Paren' and c.get('e') is not None:
+                            return disjuncts(c['e'])
+                        return [c]
+                    cands = [c for c in disjuncts(prev['c']) if c.get('k') == 'Bin' and c.get('op') in ('>', '>=', '<', '<=') and rem in (canon(c['a']), canon(c['b']))]
+                    if cands:
+                        guard = cands[0]
+                        break
+            if guard is None:
+                r.violation(f['qname'], site, 'the subtraction is not guarded: a corrupt length wraps the remaining count', file=f['file'], line=st['l'])
+                continue
+            a, bb, op = canon(guard['a']), canon(guard['b']), guard['op']
+            strict_ok = (op == '>' and bb == rem and a == sub) or (op == '<' and a == rem and bb == sub)
+            if strict_ok:
+                r.ok(f['qname'], site, 'guarded by %s %s %s' % (a, op, bb), file=f['file'], line=st['l'])
+            elif (op == '>=' and bb == rem) or (op == '<=' and a == rem):
+                r.violation(f['qname'], site, 'the guard %s %s %s also rejects an entry that exactly fills what is left — and the last entry of every map does: a map the writer stored with CKR_OK (e.g. a wrap template ending in a byte string) makes the whole object file "corrupt" on reload; the SQLite store decodes the same map' % (a, op, bb),
+                            file=f['file'], line=guard['l'])
+            else:
+                r.violation(f['qname'], site, 'the guard %s %s %s is not over the subtracted size %s' % (a, op, bb, sub), file=f['file'], line=guard['l'])
+    if n_sub == 0:
+        r.undecided(f['qname'], 'accounting', 'no `remaining -= size` statements found', file=f['file'], line=f['line'])
+
+
 def r4_layering(ctx, prog):
     r = ctx.rule('C05.R4', 'session objects never reach the file, directory or database layer', floor=10, engine='E6')
     forbidden = ('File::', 'Directory::', 'DB::', 'DBObject::', 'DBToken::', 'ObjectFile::', 'OSToken::', 'Generation::')
@@ -504,9 +555,12 @@ def run(ctx):
     r5_delete(ctx, prog)
     r3c_syscalls(ctx, prog)
     r1c_fresh_holders(ctx, prog)
+    r1d_map_accounting(ctx, prog)
 
 
 MUTANTS = [
+    dict(name='attribute-map-exact-fit-rejected', rule='C05.R1d', file='src/lib/object_store/File.cpp', after='bool File::readAttributeMap(',
+         old='\t\t\t\tif (8 + val.size() > len)', new='\t\t\t\tif (8 + val.size() >= len)'),
     dict(name='directory-remove-only-enoent-fails', rule='C05.R3c', file='src/lib/object_store/Directory.cpp', after='bool Directory::remove(std::string name)',
          old='\treturn (!::remove(fullPath.c_str()) && refresh());', new='\tif (::remove(fullPath.c_str()) != 0 && errno == ENOENT) return false;\n\treturn refresh();'),
     dict(name='refresh-holders-outside-loop', rule='C05.R1c', file='src/lib/object_store/ObjectFile.cpp', after='void ObjectFile::refresh(bool isFirstTime',
